@@ -27,7 +27,8 @@ def input_weights(g):
     network object is built, so that the oracle does not depend on what the constructor keeps of the graph"""
     w = {}
     for u, v, d in g.edges(data=True):
-        x = Fraction(d['travel_time'])
+        # an edge without the attribute takes length / speed (what the property's "arbitrary link lengths and speeds" mean)
+        x = Fraction(d['travel_time']) if 'travel_time' in d else Fraction(d['length']) / 1000 / Fraction(d['speed_kmph']) * 3600
         if (u, v) not in w or x < w[(u, v)]:
             w[(u, v)] = x
     return w
@@ -60,6 +61,10 @@ def gen_graph(rng):
             d0 = g.get_edge_data(u, v)[0]
             slow = max(3.0, d0['speed_kmph'] / rng2.choice([2.0, 5.0, 10.0]))
             g.add_edge(u, v, length=d0['length'], speed_kmph=slow, travel_time=d0['length'] / 1000.0 / slow * 3600.0)
+    # some graphs come without the travel_time attribute (the constructor derives it from length and speed): own stream
+    if random.Random(f'no-travel-time|{n}|{g.number_of_edges()}').random() < 0.5:
+        for _, _, dd in g.edges(data=True):
+            dd.pop('travel_time', None)
     w = input_weights(g)
     rn = OSMRoadNetwork(g)
     rn._verif_input_weights = w
@@ -248,6 +253,33 @@ def engine(res, spec, tier, seed, extended=False):
             res.notes.setdefault('heuristic_edge_bound', {})[name] = {'rho_s_per_km': rho, 'max_excess_s': worst}
         n_pairs = (300 if name == 'denver' else 60) if tier == 'quick' else (3000 if name == 'denver' else 200)
         ps = positions(rng, rn, 40)
+        # C13, last sentence: snapping ANY location to the network yields a position that lies on the link it names — locations on
+        # every link of the table (first and last cell, a middle cell) and locations a little off the streets
+        if want == 'C13':
+            links_sorted = sorted(rn.link_helper.links.values(), key=lambda l: l.link_id)
+            locs = []
+            for l in links_sorted:
+                cells = list(h3.h3_line(l.start, l.end))
+                locs += [cells[0], cells[-1], cells[len(cells) // 2]]
+            for l in rng.sample(links_sorted, min(10, len(links_sorted))):
+                cells = list(h3.h3_line(l.start, l.end))
+                locs += [x for x in h3.k_ring(rng.choice(cells), rng.choice([1, 3, 7]))][:3]
+            for g in locs[: (400 if tier == 'quick' else 4000)]:
+                pos = rn.position_from_geoid(g)
+                res.cov['evaluations'] += 1
+                kind = None
+                if pos is None:
+                    kind, det = 'location_cannot_be_snapped', {'location': g}
+                else:
+                    lk = rn.link_helper.links.get(pos.link_id)
+                    if lk is None:
+                        kind, det = 'snapped_position_names_unknown_link', {'location': g, 'link': pos.link_id}
+                    elif pos.geoid not in set(h3.h3_line(lk.start, lk.end)):
+                        kind, det = 'snapped_position_not_on_its_link', {'location': g, 'link': pos.link_id, 'position': pos.geoid}
+                if kind and kind not in seen:
+                    seen.add(kind)
+                    det = dict(det, network=name, links=len(links_sorted))
+                    res.add_found(kind, det, {'engine': 'eng_c13', 'seed': seed, 'network': name, 'kind': kind, 'detail': det, 'property': 'C13'})
         dist_cache = {}
         ids = {}
         def N(x):
